@@ -58,6 +58,11 @@ RISKY = [
     ["x[^nm] y[^ot]", "", "[^nm]: footnote", "", "[^ot]: other", "", "(nm)=", "para"], ["x[^nm]", "", "[^nm]: footnote", "", "{#nm}", "para"], ["x[^nm]", "", "[^nm]: footnote", "", "```{note}", ":name: nm", "b", "```"],
     ["x[^nm]", "", "[^nm]: footnote", "", "$$a$$ (nm)"], ["(nm)=", "para", "", "x[^nm]", "", "[^nm]: footnote"], ["# nm", "", "x[^nm]", "", "[^nm]: footnote", "", "[](#nm)"], ["[^1]: one", "", "(1)=", "p", "", "x[^1] [](#1)"],
     ["x[^a] y[^a]", "", "[^a]: A", "", "[^b]: B unreferenced", "", "(b)=", "p"],
+    # links of every kind that carry their own id / class (attrs_inline), towards local, other-page and missing targets
+    ["[x](#far-target){#lnk .c}", "", "[y](#far-target){#lnk2}", "", "[z](#nowhere-at-all){#lnk3}"], ["[x](other.md){#lnkd} [y](other.md#far){#lnke} [](other.md){#lnkf}"],
+    ["[x](https://e.org){#lnku .c} <https://e.org>{#lnka} [w](wiki:A){#lnkw}"], ["[x](inv:k#alpha){#lnki} [p](path:other.md){#lnkp} [q](project:other.md){#lnkq}"],
+    ["# Local", "", "[a](#local){#la} [](#local){#lb} [c](#far-target){#la}"], ["`code`{#cid .c} *em*{#eid} [span]{#sid} ![i](x.png){#iid} $m${#mid}"],
+    ["> [x](#far-target){#qlnk}", "", "- [y](#far-target){#llnk}", "", "```{note}", "[z](#far-target){#nlnk}", "```"],
     # headings inside directives that allow sections in their body
     ["# top", "", "````{mv-titled}", "## inner", "", "text", "", "#### deeper", "````", "", "### after"], ["````{mv-titled}", "# first heading of the document", "", "## sub", "````"],
     ["## h2", "", "````{mv-titled}", "### inner3", "", "# inner1", "````"], ["````{only} html", "## only heading", "", "text", "````"], ["# t", "", "````{only} html", "### skip", "````", "", "## u"],
@@ -157,7 +162,7 @@ def eval_sphinx_tree(ctx, case):
     from docutils import nodes
 
     cfg = {k: v for k, v in case.get("cfg", {}).items() if k not in ("highlight_code_blocks", "suppress_warnings", "inventories")}
-    b = drive.SphinxBuild({"index.md": case["text"]}, conf={"myst_" + k: v for k, v in cfg.items()} | {"keep_warnings": True}, builder="dummy")
+    b = drive.SphinxBuild({"index.md": case["text"], "other.md": "---\norphan: true\n---\n# Other\n\n(far-target)=\n## Far\n\ntext\n"}, conf={"myst_" + k: v for k, v in cfg.items()} | {"keep_warnings": True}, builder="dummy")
     try:
         try:
             b.build()
